@@ -28,11 +28,15 @@ class VarRef:
                     for b in range(p):
                         e = sum(J[i, k] * H[k][a][b] for k in range(dd))
                         e += sum(sp.diff(R.f[i], xs[k], xs[l]) * S[k, a] * S[l, b] for k in range(dd) for l in range(dd))
-                        e += sum(sp.diff(R.f[i], xs[k], ps[b]) * S[k, a] for k in range(dd))
-                        e += sum(sp.diff(R.f[i], xs[k], ps[a]) * S[k, b] for k in range(dd))
-                        e += sp.diff(R.f[i], ps[a], ps[b])
+                        if second_order != "truncated":
+                            # "truncated" leaves out the mixed state-parameter and the parameter-parameter
+                            # terms: the system the library is known to integrate (known finding C20/F16)
+                            e += sum(sp.diff(R.f[i], xs[k], ps[b]) * S[k, a] for k in range(dd))
+                            e += sum(sp.diff(R.f[i], xs[k], ps[a]) * S[k, b] for k in range(dd))
+                            e += sp.diff(R.f[i], ps[a], ps[b])
                         rhs.append(e)
                         self.varz.append(H[i][a][b])
+        self.has_mixed = any(sp.diff(fi, a, b) != 0 for fi in R.f for a in R.ps for b in list(R.xs) + list(R.ps))
         self.fn = sp.lambdify(self.varz + [R.t] + list(R.ps), rhs, modules="math")
 
     def solve(self, theta, x0, t0, times):
